@@ -13,12 +13,39 @@
     whose element types are `tyEq` object types with permuted fields;
   * `Val.stringify` (the `string()` built-in) of objects follows declaration order;
   * reflexivity fails for NaN / ±Inf leaves (`|x - x|` is NaN) and, in the model, for function
-    values (every occurrence is a distinct pointer);
-  * "same text ⇒ `==`" for composite values (needs the unambiguity of the rendering grammar)
-    is not proved here; it is proved for numbers, strings and booleans.
+    values (every occurrence is a distinct pointer).
+
+  "Same text ⇒ `==`" (§6, `same_text_imp_equal`) is proved for ALL kinds of values — the
+  rendering grammar is unambiguous on values of one type — under hypotheses each of which is
+  shown necessary by a kernel-checked counterexample (§7), except where noted:
+  * the two values have `tyEq` types, and their components conform to the declared component
+    types (`Val.Typed`): object field names are arbitrary strings, so `{a: true, b: false}` is
+    also the text of an object with the single field `a: true, b`; `[]` is the text of the empty
+    list of every type;
+  * map key texts are the ones `Key()` computes (`KeyGenuine`; the model stores arbitrary strings);
+  * no function values (never `==`, but they do render);
+  * instants: the zone abbreviation contains none of `,` `]` `}` `)` (the counterexample also
+    violates the display clause of `Sep` for instants, which the proof does not use; with that
+    clause the condition may be redundant); the zone offset is a whole
+    number of minutes (`Time.String()` does not print offset seconds: two different instants in
+    zones `+00:00:01` and `+00:00:00` print alike — this is Go's behaviour, not only the
+    model's); nanoseconds below `10^9`; the displayed date is not before 0000-03-01 (a limit of
+    the MODEL, inside its documented range of years 0..9999: `civilFromDays` is one day off
+    before 0000-02-29 — 0000-02-28 and 0000-02-29 both print as `0000-02-29` — because Lean's `/`
+    on `Int` rounds down where Hinnant's formula expects truncation; and `TimeV.render` prints
+    every negative year as `0000`);
+  * `Sep x y`: numbers bit-identical or not within tolerance (excludes NaN / ±Inf leaves, whose
+    texts `NaN` / `+Inf` are equal to themselves while the values are not `==`; not checkable in
+    the kernel, `Float` is opaque).  The clause of
+    `Sep` about the element types of optionals (`tyEq` ⇒ same type text) is used to avoid parsing
+    type texts (type variable / function / field names are arbitrary strings); no
+    counterexample is known for it in this direction.
+  The numeric leaf case alone uses `FloatFacts`; for values without numbers
+  (`same_text_imp_equal_no_numbers`) nothing is assumed.
 -/
 import Yae.Proofs.ValRelPrim
 import Yae.Proofs.ValRelSet
+import Yae.Proofs.ValRelTextCor
 namespace Yae.C18
 open Yae
 
@@ -291,6 +318,396 @@ theorem pinned_rendering_agrees_in_range (b : UInt64) (h : Num.isIntBits b = tru
     Num.renderNumPinnedBits b = Num.renderNumBits b :=
   Num.renderNumPinnedBits_eq b h
 
+/-! ## 6  same text ⇒ `==`: the rendering grammar is unambiguous on values of one type -/
+
+/-- **Same text ⇒ `==`**, for all kinds of values (numbers, strings, booleans, instants, lists,
+maps, objects, optionals, nested to any depth).  If two values
+* have types that are equal (`types.Equals`) and are built in conformance with them (`Typed`),
+* contain no function value, only genuine map keys and displayable instants (`TextOK`),
+* and have corresponding numbers either bit-identical or not within tolerance (`Sep`),
+then rendering to the same text makes them `==`.
+Assumed (`F`, for number leaves only): `fmtFloat_injective`, `fmtInt_ne_fmtFloat`,
+`nan_bits_unique`, `numEQ_zeros`. -/
+theorem same_text_imp_equal (F : FloatFacts) {x y : Val} (hx : x.Typed) (hy : y.Typed)
+    (hox : x.TextOK) (hoy : y.TextOK) (hty : tyEq x.typeOf y.typeOf = true) (hs : Sep x y)
+    (h : x.render = y.render) : valEq x y = true :=
+  render_imp_valEq F timeText ((Val.good_iff x).2 ⟨hx, hox⟩) ((Val.good_iff y).2 ⟨hy, hoy⟩)
+    hty hs h
+
+/-- The same for values without numbers: nothing about `Float` is assumed. -/
+theorem same_text_imp_equal_no_numbers {x y : Val} (hx : x.Typed) (hy : y.Typed)
+    (hox : x.TextOK) (hoy : y.TextOK) (hn : x.NoNum) (hty : tyEq x.typeOf y.typeOf = true)
+    (hs : Sep x y) (h : x.render = y.render) : valEq x y = true :=
+  render_imp_valEq_noNum timeText ((Val.good_iff x).2 ⟨hx, hox⟩) hn
+    ((Val.good_iff y).2 ⟨hy, hoy⟩) hty hs h
+
+/-- The underlying fact: the text of a value, followed by one of `,` `]` `}` `)` or by nothing,
+determines where the value's text ends (and the value up to `==`). -/
+theorem text_determines_value_and_rest (F : FloatFacts) {x y : Val} (hx : x.Typed) (hy : y.Typed)
+    (hox : x.TextOK) (hoy : y.TextOK) (hty : tyEq x.typeOf y.typeOf = true) (hs : Sep x y)
+    (s s' : List Char) (ht : Term stopV s) (ht' : Term stopV s')
+    (h : x.render.toList ++ s = y.render.toList ++ s') : valEq x y = true ∧ s = s' :=
+  text_unique (N := fun _ => True) (fun a _ => numTextInj_of_floatFacts F a) timeText x y
+    ((Val.good_iff x).2 ⟨hx, hox⟩) (numsSat_true x) ((Val.good_iff y).2 ⟨hy, hoy⟩) hty hs s s'
+    ht ht' h
+
+/-- **`==` ⇔ same text**, for well-typed separated values of equal type. -/
+theorem equal_iff_same_text (F : FloatFacts) {x y : Val} (hx : x.Typed) (hy : y.Typed)
+    (hox : x.TextOK) (hoy : y.TextOK) (hty : tyEq x.typeOf y.typeOf = true) (hs : Sep x y) :
+    valEq x y = true ↔ x.render = y.render :=
+  ⟨equal_imp_same_text_partial hx.1 hy.1 hs, same_text_imp_equal F hx hy hox hoy hty hs⟩
+
+/-- … and without the assumption on the types: `==` ⇔ equal types and same text. -/
+theorem equal_iff_same_type_and_text (F : FloatFacts) {x y : Val} (hx : x.Typed) (hy : y.Typed)
+    (hox : x.TextOK) (hoy : y.TextOK) (hs : Sep x y) :
+    valEq x y = true ↔ (tyEq x.typeOf y.typeOf = true ∧ x.render = y.render) :=
+  valEq_iff_render F ((Val.good_iff x).2 ⟨hx, hox⟩) ((Val.good_iff y).2 ⟨hy, hoy⟩) hs
+
+theorem equal_iff_same_text_no_numbers {x y : Val} (hx : x.Typed) (hy : y.Typed)
+    (hox : x.TextOK) (hoy : y.TextOK) (hn : x.NoNum) (hty : tyEq x.typeOf y.typeOf = true)
+    (hs : Sep x y) : valEq x y = true ↔ x.render = y.render :=
+  ⟨equal_imp_same_text_partial hx.1 hy.1 hs,
+    same_text_imp_equal_no_numbers hx hy hox hoy hn hty hs⟩
+
+/-! ### the same element in `union` / `intersect` / `diff` -/
+
+/-- `x` is comparable with the members of `l`: they are well-typed values of `x`'s type that
+satisfy the text conditions and are separated from `x` -/
+def ComparableWith (x : Val) (l : List Val) : Prop :=
+  ∀ v ∈ l, v.Typed ∧ v.TextOK ∧ tyEq x.typeOf v.typeOf = true ∧ Sep x v
+
+theorem ComparableWith.comparable {x : Val} {l : List Val} (h : ComparableWith x l) :
+    Comparable x l :=
+  fun v hv => ⟨(Val.good_iff v).2 ⟨(h v hv).1, (h v hv).2.1⟩, (h v hv).2.2.1, (h v hv).2.2.2⟩
+
+/-- The set functions key their elements by text (`valSetOf`).  An element is found in the set
+of a list exactly when the list has an `==` element. -/
+theorem set_member_iff_equal_element (F : FloatFacts) {x : Val} {ys : ValList} (hx : x.Typed)
+    (hox : x.TextOK) (hl : ComparableWith x ys.toList) :
+    setHas (valSetOf ys) x.render = true ↔ ∃ v ∈ ys.toList, valEq x v = true :=
+  setHas_valSetOf_iff F ((Val.good_iff x).2 ⟨hx, hox⟩) hl.comparable
+
+/-- Two elements are merged into one set element exactly when they are `==`. -/
+theorem merged_iff_equal (F : FloatFacts) {x y : Val} (hx : x.Typed) (hy : y.Typed)
+    (hox : x.TextOK) (hoy : y.TextOK) (hty : tyEq x.typeOf y.typeOf = true) (hs : Sep x y) :
+    (valSetOf (.cons x (.cons y .nil))).length = 1 ↔ valEq x y = true :=
+  valSetOf_pair_merged_iff F ((Val.good_iff x).2 ⟨hx, hox⟩) ((Val.good_iff y).2 ⟨hy, hoy⟩) hty hs
+
+/-- `x` counts as an element of `union(xs, ys)` iff it is `==` to an element of `xs` or of `ys` -/
+theorem union_has_iff (F : FloatFacts) {x : Val} {xs ys : ValList} (hx : x.Typed)
+    (hox : x.TextOK) (hlx : ComparableWith x xs.toList) (hly : ComparableWith x ys.toList) :
+    x.render ∈ renders (setUnion (valSetOf xs) (valSetOf ys)) ↔
+      (∃ v ∈ xs.toList, valEq x v = true) ∨ (∃ v ∈ ys.toList, valEq x v = true) := by
+  have hg := (Val.good_iff x).2 ⟨hx, hox⟩
+  rw [mem_renders_union, render_mem_iff F hg hlx.comparable, render_mem_iff F hg hly.comparable]
+
+/-- … of `intersect(xs, ys)` iff it is `==` to an element of `xs` and to one of `ys` -/
+theorem intersect_has_iff (F : FloatFacts) {x : Val} {xs ys : ValList} (hx : x.Typed)
+    (hox : x.TextOK) (hlx : ComparableWith x xs.toList) (hly : ComparableWith x ys.toList) :
+    x.render ∈ renders (setIntersect (valSetOf xs) (valSetOf ys)) ↔
+      (∃ v ∈ xs.toList, valEq x v = true) ∧ (∃ v ∈ ys.toList, valEq x v = true) := by
+  have hg := (Val.good_iff x).2 ⟨hx, hox⟩
+  rw [mem_renders_intersect, render_mem_iff F hg hlx.comparable,
+    render_mem_iff F hg hly.comparable]
+
+/-- … of `diff(xs, ys)` iff it is `==` to an element of `xs` and to none of `ys` -/
+theorem diff_has_iff (F : FloatFacts) {x : Val} {xs ys : ValList} (hx : x.Typed)
+    (hox : x.TextOK) (hlx : ComparableWith x xs.toList) (hly : ComparableWith x ys.toList) :
+    x.render ∈ renders (setDiff (valSetOf xs) (valSetOf ys)) ↔
+      (∃ v ∈ xs.toList, valEq x v = true) ∧ ¬ (∃ v ∈ ys.toList, valEq x v = true) := by
+  have hg := (Val.good_iff x).2 ⟨hx, hox⟩
+  rw [mem_renders_diff, render_mem_iff F hg hlx.comparable, render_mem_iff F hg hly.comparable]
+
+/-! ### the same map entry -/
+
+/-- Two keys (numbers, strings, booleans or instants) are the same map key exactly when they
+are `==`. -/
+theorem same_key_iff_equal (F : FloatFacts) {x y : Val} (hk : x.key?.isSome = true)
+    (hox : x.TextOK) (hoy : y.TextOK) (hs : Sep x y) : x.key? = y.key? ↔ valEq x y = true :=
+  key_eq_iff_valEq F hk hox hoy hs
+
+/-- `m[x]` and `m[y]` select the same entry in every map exactly when `x == y`. -/
+theorem select_same_entry_iff_equal (F : FloatFacts) {x y : Val} {t t' : Kind} {k k' : String}
+    (hkx : x.key? = some (t, k)) (hky : y.key? = some (t', k')) (hox : x.TextOK)
+    (hoy : y.TextOK) (hs : Sep x y) :
+    (∀ es : EntryList, es.find? t k = es.find? t' k') ↔ valEq x y = true :=
+  select_same_entry_iff F hkx hky hox hoy hs
+
+/-- instants included: the text of an instant determines it -/
+theorem time_same_text_imp_equal {a b : TimeV} (ha : a.TextOK) (hb : b.TextOK)
+    (h : a.render = b.render) : a.equal b = true :=
+  timeText.inj a b ha hb h
+
+/-! ### non-vacuity: nested values whose strings contain the delimiters (no numbers, nothing
+assumed) -/
+
+def T1 : Ty := .obj (.cons "name" .str (.cons "tags" (.list .str) .nil))
+def T2 : Ty := .obj (.cons "tags" (.list .str) (.cons "name" .str .nil))
+def tags : Val :=
+  .list (.list .str) (.cons (.str "]") (.cons (.str "\"") (.cons (.str ", ") .nil)))
+def p1 : Val := .obj T1 (.cons (.str "a, b: c}") (.cons tags .nil))
+def p2 : Val := .obj T2 (.cons tags (.cons (.str "a, b: c}") .nil))
+/-- a list of two objects in one field order … -/
+def l1 : Val := .list (.list T1) (.cons p1 (.cons p1 .nil))
+/-- … and in the other -/
+def l2 : Val := .list (.list T2) (.cons p2 (.cons p2 .nil))
+
+example : l1.render =
+    "[{name: \"a, b: c}\", tags: [\"]\", \"\\\"\", \", \"]}, {name: \"a, b: c}\", tags: [\"]\", \"\\\"\", \", \"]}]" := by
+  decide
+
+theorem l1_typed : l1.Typed := by
+  refine ⟨?_, ?_⟩
+  · simp [l1, p1, tags, T1, Val.WF, Val.All, ValList.All, Val.LocalWF, Ty.wf, wfFields,
+      FieldList.find?, FieldList.length, ValList.length]
+  · simp only [l1, p1, tags, T1, Val.All, ValList.All, localTyped_obj_cons, localTyped_obj_nil]
+    simp [Val.LocalTyped, ValList.toList, Val.typeOf, tyEq, tyEqFields, FieldList.find?,
+      FieldList.length]
+theorem l2_typed : l2.Typed := by
+  refine ⟨?_, ?_⟩
+  · simp [l2, p2, tags, T2, Val.WF, Val.All, ValList.All, Val.LocalWF, Ty.wf, wfFields,
+      FieldList.find?, FieldList.length, ValList.length]
+  · simp only [l2, p2, tags, T2, Val.All, ValList.All, localTyped_obj_cons, localTyped_obj_nil]
+    simp [Val.LocalTyped, ValList.toList, Val.typeOf, tyEq, tyEqFields, FieldList.find?,
+      FieldList.length]
+theorem l1_textOK : l1.TextOK := by
+  simp [l1, p1, tags, Val.TextOK, Val.All, ValList.All, Val.LocalTextOK]
+theorem l2_textOK : l2.TextOK := by
+  simp [l2, p2, tags, Val.TextOK, Val.All, ValList.All, Val.LocalTextOK]
+theorem l1_noNum : l1.NoNum := by
+  simp [l1, p1, tags, Val.NoNum, Val.NumsSat, Val.All, ValList.All, Val.LocalNums]
+
+theorem sep_tags : Sep tags tags := by
+  refine Sep.list ?_
+  intro i v w h1 h2
+  have h1 := List.mem_of_getElem? h1
+  have h2 := List.mem_of_getElem? h2
+  simp only [ValList.toList, List.mem_cons, List.not_mem_nil, or_false] at h1 h2
+  rcases h1 with rfl | rfl | rfl <;> rcases h2 with rfl | rfl | rfl <;> exact Sep.str _ _
+theorem sep_p1_p2 : Sep p1 p2 := by
+  refine Sep.obj ?_
+  intro n v w h1 h2
+  have h1 := objGet?_some_mem _ _ _ _ h1
+  have h2 := objGet?_some_mem _ _ _ _ h2
+  simp [objPairs, FieldList.names, ValList.toList] at h1 h2
+  rcases h1 with ⟨rfl, rfl⟩ | ⟨rfl, rfl⟩ <;> rcases h2 with ⟨h, rfl⟩ | ⟨h, rfl⟩ <;>
+    first | exact Sep.str _ _ | exact sep_tags | (exact absurd h (by decide))
+theorem sep_l1_l2 : Sep l1 l2 := by
+  refine Sep.list ?_
+  intro i v w h1 h2
+  have h1 := List.mem_of_getElem? h1
+  have h2 := List.mem_of_getElem? h2
+  simp only [ValList.toList, List.mem_cons, List.not_mem_nil, or_false, or_self] at h1 h2
+  rw [h1, h2]; exact sep_p1_p2
+
+/-- the two lists render alike, hence — by the theorem, not by computing `==` — they are `==` -/
+example : valEq l1 l2 = true :=
+  same_text_imp_equal_no_numbers l1_typed l2_typed l1_textOK l2_textOK l1_noNum (by decide)
+    sep_l1_l2 (by decide)
+
+example : valEq l1 l2 = true ↔ l1.render = l2.render :=
+  equal_iff_same_text_no_numbers l1_typed l2_typed l1_textOK l2_textOK l1_noNum (by decide)
+    sep_l1_l2
+
+/-- maps: `m1` and `m2` (entries in different insertion order) have genuine string keys -/
+theorem m1_typed : m1.Typed :=
+  ⟨m1_wf, by simp [m1, Val.All, EntryList.All, Val.LocalTyped, EntryList.toList, Val.typeOf, tyEq]⟩
+theorem m2_typed : m2.Typed :=
+  ⟨m2_wf, by simp [m2, Val.All, EntryList.All, Val.LocalTyped, EntryList.toList, Val.typeOf, tyEq]⟩
+theorem key_a : KeyGenuine .str "\"a\"" := ⟨.str "a", by decide⟩
+theorem key_b : KeyGenuine .str "\"b\"" := ⟨.str "b", by decide⟩
+theorem m1_textOK : m1.TextOK := by
+  simp [m1, Val.TextOK, Val.All, EntryList.All, Val.LocalTextOK, EntryList.toList, key_a, key_b]
+theorem m2_textOK : m2.TextOK := by
+  simp [m2, Val.TextOK, Val.All, EntryList.All, Val.LocalTextOK, EntryList.toList, key_a, key_b]
+theorem m1_noNum : m1.NoNum := by
+  simp [m1, Val.NoNum, Val.NumsSat, Val.All, EntryList.All, Val.LocalNums]
+
+example : valEq m1 m2 = true :=
+  same_text_imp_equal_no_numbers m1_typed m2_typed m1_textOK m2_textOK m1_noNum (by decide)
+    sep_m1_m2 (by decide)
+
+/-- instants: a displayable instant, and two keys that are instants -/
+theorem t5_textOK : (⟨5, 0, 0, "UTC"⟩ : TimeV).TextOK :=
+  ⟨by decide, by decide, by decide, by decide⟩
+
+example : (⟨5, 0, 0, "UTC"⟩ : TimeV).equal ⟨5, 0, 0, "UTC"⟩ = true :=
+  time_same_text_imp_equal t5_textOK t5_textOK rfl
+
+/-! ## 7  each hypothesis of `same_text_imp_equal` is needed
+
+Every statement below exhibits two values that render to the same text and are not `==`; the
+hypotheses of `same_text_imp_equal` other than the one named hold (they are part of the
+statement where they are not evident; for the instants see the individual remarks). -/
+
+/-- **equal types** are needed: `[]` is the text of the empty list of every type -/
+theorem needs_equal_types_empty_lists :
+    (Val.list (.list .str) .nil).Typed ∧ (Val.list (.list .bool) .nil).Typed ∧
+    (Val.list (.list .str) .nil).TextOK ∧ (Val.list (.list .bool) .nil).TextOK ∧
+    Sep (.list (.list .str) .nil) (.list (.list .bool) .nil) ∧
+    (Val.list (.list .str) .nil).render = (Val.list (.list .bool) .nil).render ∧
+    valEq (.list (.list .str) .nil) (.list (.list .bool) .nil) = false := by
+  refine ⟨⟨?_, ?_⟩, ⟨?_, ?_⟩, ?_, ?_, Sep.list ?_, by decide,
+    by simp [valEq, Val.typeOf, tyEq]⟩
+  all_goals first
+    | (intro i v w h; simp [ValList.toList] at h; done)
+    | simp [Val.WF, Val.All, ValList.All, Val.LocalWF, Val.LocalTyped, Val.TextOK,
+        Val.LocalTextOK, Ty.wf, ValList.toList]
+
+/-- an object with the fields `a` and `b` … -/
+def ob2 : Val := .obj (.obj (.cons "a" .bool (.cons "b" .bool .nil)))
+  (.cons (.bool true) (.cons (.bool false) .nil))
+/-- … and an object with the single field `a: true, b` -/
+def ob1 : Val := .obj (.obj (.cons "a: true, b" .bool .nil)) (.cons (.bool false) .nil)
+
+theorem ob2_typed : ob2.Typed := by
+  refine ⟨?_, ?_⟩
+  · simp [ob2, Val.WF, Val.All, ValList.All, Val.LocalWF, Ty.wf, wfFields, FieldList.find?,
+      FieldList.length, ValList.length]
+  · simp only [ob2, Val.All, ValList.All, localTyped_obj_cons, localTyped_obj_nil]
+    simp [Val.LocalTyped, Val.typeOf, tyEq]
+theorem ob1_typed : ob1.Typed := by
+  refine ⟨?_, ?_⟩
+  · simp [ob1, Val.WF, Val.All, ValList.All, Val.LocalWF, Ty.wf, wfFields, FieldList.find?,
+      FieldList.length, ValList.length]
+  · simp only [ob1, Val.All, ValList.All, localTyped_obj_cons, localTyped_obj_nil]
+    simp [Val.LocalTyped, Val.typeOf, tyEq]
+theorem sep_ob2_ob1 : Sep ob2 ob1 := by
+  refine Sep.obj ?_
+  intro n v w h1 h2
+  have h1 := objGet?_some_mem _ _ _ _ h1
+  have h2 := objGet?_some_mem _ _ _ _ h2
+  simp [objPairs, FieldList.names, ValList.toList] at h1 h2
+  rcases h1 with ⟨rfl, rfl⟩ | ⟨rfl, rfl⟩ <;> exact absurd h2.1 (by decide)
+
+theorem ob2_ne_ob1 : valEq ob2 ob1 = false := by
+  simp [ob2, ob1, valEq_obj, tyEq, FieldList.length]
+
+/-- **equal types** are needed, even among objects: field names are arbitrary strings, so
+`{a: true, b: false}` has two readings -/
+theorem needs_equal_types_objects :
+    ob2.Typed ∧ ob1.Typed ∧ ob2.TextOK ∧ ob1.TextOK ∧ Sep ob2 ob1 ∧
+    ob2.render = ob1.render ∧ ob2.render = "{a: true, b: false}" ∧ valEq ob2 ob1 = false := by
+  refine ⟨ob2_typed, ob1_typed, ?_, ?_, sep_ob2_ob1, by decide, by decide, ob2_ne_ob1⟩
+  · simp [ob2, Val.TextOK, Val.All, ValList.All, Val.LocalTextOK]
+  · simp [ob1, Val.TextOK, Val.All, ValList.All, Val.LocalTextOK]
+
+/-- **conformance to the declared component types** (`Typed`, not only `WF`) is needed: two lists
+of the same declared type `list[bool]`, holding the two objects above -/
+theorem needs_typed :
+    (Val.list (.list .bool) (.cons ob2 .nil)).WF ∧ (Val.list (.list .bool) (.cons ob1 .nil)).WF ∧
+    (Val.list (.list .bool) (.cons ob2 .nil)).TextOK ∧
+    (Val.list (.list .bool) (.cons ob1 .nil)).TextOK ∧
+    (Val.list (.list .bool) (.cons ob2 .nil)).typeOf =
+      (Val.list (.list .bool) (.cons ob1 .nil)).typeOf ∧
+    Sep (.list (.list .bool) (.cons ob2 .nil)) (.list (.list .bool) (.cons ob1 .nil)) ∧
+    (Val.list (.list .bool) (.cons ob2 .nil)).render =
+      (Val.list (.list .bool) (.cons ob1 .nil)).render ∧
+    valEq (.list (.list .bool) (.cons ob2 .nil)) (.list (.list .bool) (.cons ob1 .nil)) = false := by
+  refine ⟨?_, ?_, ?_, ?_, rfl, Sep.list ?_, by decide, ?_⟩
+  rotate_right
+  · rw [valEq_list]
+    simp [valEqList, ob2_ne_ob1]
+  · have := ob2_typed.1
+    simp only [Val.WF, Val.All, ValList.All, Val.LocalWF, Ty.wf, and_true, true_and] at this ⊢
+    exact ⟨⟨_, rfl⟩, this⟩
+  · have := ob1_typed.1
+    simp only [Val.WF, Val.All, ValList.All, Val.LocalWF, Ty.wf, and_true, true_and] at this ⊢
+    exact ⟨⟨_, rfl⟩, this⟩
+  · simp [ob2, Val.TextOK, Val.All, ValList.All, Val.LocalTextOK]
+  · simp [ob1, Val.TextOK, Val.All, ValList.All, Val.LocalTextOK]
+  · intro i v w h1 h2
+    have h1 := List.mem_of_getElem? h1
+    have h2 := List.mem_of_getElem? h2
+    simp only [ValList.toList, List.mem_cons, List.not_mem_nil, or_false] at h1 h2
+    rw [h1, h2]; exact sep_ob2_ob1
+
+/-- a map with the two string keys `a`, `b` … -/
+def mk2 : Val := m1
+/-- … and a map whose single key text was not produced by `Key()` -/
+def mk1 : Val := .map (.map .str .bool) (.cons .str "\"a\": true, \"b\"" (.bool false) .nil)
+
+/-- **genuine key texts** are needed (the model's entry lists store arbitrary strings; the
+evaluator only ever stores `Key()` texts) -/
+theorem needs_genuine_keys :
+    mk2.Typed ∧ mk1.Typed ∧ mk2.TextOK ∧ tyEq mk2.typeOf mk1.typeOf = true ∧ Sep mk2 mk1 ∧
+    mk2.render = mk1.render ∧ valEq mk2 mk1 = false := by
+  refine ⟨m1_typed, ⟨?_, ?_⟩, m1_textOK, by decide, Sep.map ?_, by decide,
+    by simp [mk2, m1, mk1, valEq_map, EntryList.length]⟩
+  · simp [mk1, Val.WF, Val.All, EntryList.All, Val.LocalWF, EntryList.keys, EntryList.toList,
+      Ty.wf, Ty.keyable, Ty.isPrimitive, Ty.kind, Kind.isPrimitive]
+  · simp [mk1, Val.All, EntryList.All, Val.LocalTyped, EntryList.toList, Val.typeOf, tyEq]
+  · intro t k v w h1 h2
+    have h1 := EntryList.find?_some_mem _ _ _ _ h1
+    have h2 := EntryList.find?_some_mem _ _ _ _ h2
+    simp [EntryList.toList] at h1 h2
+    rcases h1 with ⟨_, rfl, _⟩ | ⟨_, rfl, _⟩ <;> exact absurd h2.2.1 (by decide)
+
+/-- **no function values**: a function value renders like itself and is not `==` to itself -/
+theorem needs_no_functions (ty : Ty) (r : FunRef) (l : Bool) :
+    Sep (.fn ty r l) (.fn ty r l) ∧ (Val.fn ty r l).render = (Val.fn ty r l).render ∧
+    valEq (.fn ty r l) (.fn ty r l) = false :=
+  ⟨Sep.fn _ _ _ _ _ _, rfl, fn_not_self_equal ty r l⟩
+
+/-- **zone abbreviations without `,` `]` `}` `)`**: one instant whose zone "abbreviation" contains
+`, ` and the text of a second instant, against a list of two instants.  (`time.FixedZone` accepts
+any name.)  Remark: the first instants of the two lists are equal and displayed under different
+zone names, so the display clause of `Sep` for instants fails here as well; the proof of
+`same_text_imp_equal` does not use that clause.  Whether the zone condition is redundant in the
+presence of that clause is not settled. -/
+theorem needs_plain_zone :
+    (Val.list (.list .time)
+      (.cons (.time ⟨5, 0, 0, "UTC, 1970-01-01 00:00:07 +0000 UTC"⟩) .nil)).render =
+    (Val.list (.list .time)
+      (.cons (.time ⟨5, 0, 0, "UTC"⟩) (.cons (.time ⟨7, 0, 0, "UTC"⟩) .nil))).render ∧
+    valEq (.list (.list .time)
+      (.cons (.time ⟨5, 0, 0, "UTC, 1970-01-01 00:00:07 +0000 UTC"⟩) .nil))
+      (.list (.list .time)
+      (.cons (.time ⟨5, 0, 0, "UTC"⟩) (.cons (.time ⟨7, 0, 0, "UTC"⟩) .nil))) = false := by
+  refine ⟨by decide, by simp [valEq_list, ValList.length]⟩
+
+/-- **zone offsets in whole minutes**: `Time.String()` prints the offset as `-0700`, without
+seconds; an instant displayed in a zone one second east of UTC and the instant one second later
+displayed in UTC print alike.  This is the behaviour of Go's `time` package, not only of the
+model. -/
+theorem needs_whole_minute_offsets :
+    (⟨0, 0, 1, "Z"⟩ : TimeV).render = (⟨1, 0, 0, "Z"⟩ : TimeV).render ∧
+    Sep (.time ⟨0, 0, 1, "Z"⟩) (.time ⟨1, 0, 0, "Z"⟩) ∧
+    valEq (.time ⟨0, 0, 1, "Z"⟩) (.time ⟨1, 0, 0, "Z"⟩) = false :=
+  ⟨by decide, Sep.time (fun h => absurd h (by decide)),
+    by simp [valEq, Val.typeOf, tyEq, TimeV.equal]⟩
+
+/-- **nanoseconds below `10^9`** (an invariant of Go's `time.Time`; the model's `TimeV` does not
+enforce it) -/
+theorem needs_nsec_in_range :
+    (⟨0, 1000000000, 0, "UTC"⟩ : TimeV).render = (⟨0, 100000000, 0, "UTC"⟩ : TimeV).render ∧
+    valEq (.time ⟨0, 1000000000, 0, "UTC"⟩) (.time ⟨0, 100000000, 0, "UTC"⟩) = false := by
+  have d1 : Nat.toDigits 10 1000000000 = ['1', '0', '0', '0', '0', '0', '0', '0', '0', '0'] := by
+    simp [Nat.toDigits_of_base_le, Nat.toDigits_of_lt_base]
+  have d2 : Nat.toDigits 10 100000000 = ['1', '0', '0', '0', '0', '0', '0', '0', '0'] := by
+    simp [Nat.toDigits_of_base_le, Nat.toDigits_of_lt_base]
+  have f1 : fracStr 1000000000 = fracStr 100000000 := by
+    apply String.toList_inj.1
+    rw [fracStr_toList, fracStr_toList]
+    simp [fracL, padL, d1, d2]
+  exact ⟨by simp only [TimeV.render, f1], by simp [valEq, Val.typeOf, tyEq, TimeV.equal]⟩
+
+/-- **dates from 0000-03-01 on** (a limit of the model, not of Go, and inside the model's
+documented range of years 0..9999): `TimeV.render` prints 0000-02-28 as `0000-02-29`
+(`civilFromDays` is one day off before 0000-02-29) -/
+theorem needs_date_from_march_of_year_0 :
+    (⟨-62162208000, 0, 0, "UTC"⟩ : TimeV).render = (⟨-62162121600, 0, 0, "UTC"⟩ : TimeV).render ∧
+    (⟨-62162121600, 0, 0, "UTC"⟩ : TimeV).render = "0000-02-29 00:00:00 +0000 UTC" ∧
+    valEq (.time ⟨-62162208000, 0, 0, "UTC"⟩) (.time ⟨-62162121600, 0, 0, "UTC"⟩) = false :=
+  ⟨by decide, by decide, by simp [valEq, Val.typeOf, tyEq, TimeV.equal]⟩
+
+/-- … and it prints every negative year as `0000`: the last day of year -1 and a day one year
+earlier print alike -/
+theorem needs_year_in_range :
+    (⟨-62167305600, 0, 0, "UTC"⟩ : TimeV).render = (⟨-62198841600, 0, 0, "UTC"⟩ : TimeV).render ∧
+    valEq (.time ⟨-62167305600, 0, 0, "UTC"⟩) (.time ⟨-62198841600, 0, 0, "UTC"⟩) = false :=
+  ⟨by decide, by simp [valEq, Val.typeOf, tyEq, TimeV.equal]⟩
+
 /-! ## axioms -/
 #print axioms valEq_symm
 #print axioms valEq_symm_of_numEQ_symm
@@ -319,5 +736,30 @@ theorem pinned_rendering_agrees_in_range (b : UInt64) (h : Num.isIntBits b = tru
 #print axioms toInt64_injective
 #print axioms small_ints_render_apart
 #print axioms pinned_rendering_agrees_in_range
+
+#print axioms same_text_imp_equal
+#print axioms same_text_imp_equal_no_numbers
+#print axioms text_determines_value_and_rest
+#print axioms equal_iff_same_text
+#print axioms equal_iff_same_type_and_text
+#print axioms equal_iff_same_text_no_numbers
+#print axioms set_member_iff_equal_element
+#print axioms merged_iff_equal
+#print axioms union_has_iff
+#print axioms intersect_has_iff
+#print axioms diff_has_iff
+#print axioms same_key_iff_equal
+#print axioms select_same_entry_iff_equal
+#print axioms time_same_text_imp_equal
+#print axioms needs_equal_types_empty_lists
+#print axioms needs_equal_types_objects
+#print axioms needs_typed
+#print axioms needs_genuine_keys
+#print axioms needs_no_functions
+#print axioms needs_plain_zone
+#print axioms needs_whole_minute_offsets
+#print axioms needs_nsec_in_range
+#print axioms needs_date_from_march_of_year_0
+#print axioms needs_year_in_range
 
 end Yae.C18
